@@ -1,6 +1,11 @@
-"""C11 — per-fold score calibration: Model/Calibrate.v against mokapot.dataset.calibrate_scores and
-against the scores returned by the real brew (fold membership recovered with the recording scaler)."""
+"""C11 — per-fold score calibration: Model/Calibrate.v (+ Model/CalibrateD.v for the desc argument) against
+mokapot.dataset.calibrate_scores, OnDiskPsmDataset.calibrate_scores and the scores returned by the real brew
+(fold membership recovered with the recording scaler)."""
 import itertools
+import os
+import random
+import shutil
+import tempfile
 from fractions import Fraction
 
 from .. import lib, brewlib
@@ -9,15 +14,53 @@ from . import c02
 
 PROP = "C11"
 RULE = ("(1) calibrate_scores called directly: exhaustive over all score vectors in {0..3}^n x label vectors for n<=4 "
-        "(quick) / n<=5 (thorough) at thresholds 0.25/0.5/1.0, plus random integer/half-integer vectors up to n=200; "
-        "(2) real brew runs (as C02: 1-3 files, folds 2-6, chunk sizes, workers, decision_function and predict_proba "
-        "estimators, several test_fdr incl. ones at which a fold accepts nothing): returned scores compared exactly "
-        "with the model's calibrated rationals. non-trivial = has both targets and decoys and a tie or a decoy above a target")
+        "(quick) / n<=5 (thorough) at thresholds 0.25/0.5/1.0, plus random integer/half-integer vectors up to n=200, exact affine "
+        "images of them (offsets +-2^40, 1e6, 1e9, small negative offsets giving mixed signs, scales 2^-200..2^60), a few vectors of "
+        "800-2500 rows; the same with desc=False (exhaustive n<=3 / n<=4, random; passed by position and by keyword; model "
+        "Model/CalibrateD.v) and desc=True given explicitly; every container the signature admits: scores as float64 / float32 / int64 "
+        "arrays, non-contiguous views, pandas Series with default, permuted, gapped and string row labels; targets as bool / 0-1 int / "
+        "0-1 float arrays and bool / int Series with row labels that differ from those of the scores (the pairing is positional); "
+        "eval_fdr as float, numpy float64, the int 1 and 0.0; "
+        "(2) OnDiskPsmDataset.calibrate_scores (targets read from the file: tsv / Parquet, labels -1/1, 0/1, bool) — known finding, see "
+        "known_findings.json; (3) real brew runs (as C02: 1-3 files, folds 2-6 and 10-13, chunk sizes, workers, decision_function "
+        "and predict_proba estimators, several test_fdr incl. ones at which a fold accepts nothing); runs whose feature values are "
+        "exact affine images of the generated integers (large offsets, negative and mixed-sign values, half-integers, tiny / huge "
+        "scales; integer images in tsv, dyadic ones in Parquet), whose estimator returns float32 or int64 decision values, all three "
+        "label encodings, several prediction chunks; runs with a list of previously trained fold models (given in rotated order); "
+        "runs with one previously trained model that gets worse when re-fitted (brew then scores each file with the original model "
+        "and calibrates per file through OnDiskPsmDataset.calibrate_scores — same known finding): returned scores compared exactly "
+        "with the model's calibrated rationals. non-trivial: direct = has both targets and decoys and a tie or a decoy above a "
+        "target; brew = the run returned scores from a decision_function estimator and every (file, fold) group had an accepted "
+        "target above its decoy median so that the anchored map was compared value by value, or brew stopped with the calibration "
+        "error and the model, recomputing the calibration from the columns the fold models learned, confirms a fold without an "
+        "accepted target")
 ASSUMPTIONS = [
     "raw scores are integers or half-integers (exact in the model); (s-t)/(t-d) is a single correctly rounded division, compared exactly",
+    "float32 inputs / float32 decision values: numpy computes the same expression in float32; the model's rational is rounded to "
+    "float32 (through float64: no double-rounding error is possible for operands below 2^12)",
     "non-finite results (no decoy in a fold, t = d) are reported by the code as nan/inf and by the model as Err EType; both map to 'NonFinite'",
+    "desc=False has no meaning in the property text (brew never passes it); it is checked against the model only "
+    "(C11_calibrate_desc_spec) and, where the decoy median lies below the accepted minimum, against the anchored-map oracle",
+    "a pandas Series is paired with the other argument by position, whatever its row labels (this is what the code does: .values)",
 ]
-TRUSTED_EXTRA = c02.TRUSTED_EXTRA + ["numpy min/median"]
+TRUSTED_EXTRA = c02.TRUSTED_EXTRA + ["numpy min/median", "pandas Series arithmetic with a numpy scalar"]
+
+KEY_ONDISK = "ondisk-calibrate:target-column-requested-as-str"
+
+SC_KINDS = ["f32", "i64", "strided", "ser", "ser_perm", "ser_gap", "ser_str", "ser_i64_perm"]
+TG_KINDS = ["bool", "int", "float", "ser", "ser_perm", "ser_int_gap"]
+
+_DIRECT_BY_ID = {}    # the direct cases of the last gen() (their model calls are made in one driver batch)
+_MODEL_CACHE = {}     # id(case) -> driver output line
+_NT = {}              # id(case) -> was this brew case non-trivial (known only after it ran)
+
+
+def _rand_vec(rng, n, flip=False):
+    lab = [1 if rng.random() < 0.6 else 0 for _ in range(n)]
+    sc = [(rng.randint(30, 120) if (t and rng.random() < 0.7) else rng.randint(0, 70)) for t in lab]
+    if flip:                      # low scores are the good ones (for desc=False)
+        sc = [120 - s for s in sc]
+    return sc, lab
 
 
 def gen(ctx):
@@ -68,20 +111,349 @@ def gen(ctx):
                       "workers": rng.choice([1, 2]), "subset_max_train": None, "chunks": {"predict": n // parts + 1}, "fmt": "tsv",
                       "row_group": None, "est_mode": "decision",
                       "tags": ["brew", "files=1", "multi-chunk-well-separated", "chunks=%d" % parts, "decision"]})
+    # ------------------------------------------------------------------ added by the white-box review
+    cases += _gen_direct_more(ctx)
+    cases += _gen_ondisk(ctx)
+    cases += _gen_brew_more(ctx)
+    _DIRECT_BY_ID.clear()
+    _DIRECT_BY_ID.update({id(c): c for c in cases if c["fn"] == "cal"})
+    _MODEL_CACHE.clear()
+    _NT.clear()
     return cases
 
 
+def _gen_direct_more(ctx):
+    cases = []
+    # the ranking direction: desc=False exhaustively on small vectors ...
+    nmax = 4 if ctx.thorough else 3
+    for n in range(1, nmax + 1):
+        for sc in itertools.product(range(4), repeat=n):
+            for lab in itertools.product((0, 1), repeat=n):
+                for thr in (("0.5", "1.0") if n <= 3 else ("0.5",)):
+                    cases.append({"fn": "cal", "scores": list(sc), "labels": list(lab), "thr": thr, "half": False, "desc": False,
+                                  "desc_kw": (sum(sc) + n) % 2 == 0, "tags": ["direct", "exhaustive", "desc=False", f"n={n}"]})
+    # ... and on random vectors in which the low scores are the good ones; desc=True given explicitly
+    rng = ctx.sub("cal-desc")
+    for k in range(600 if ctx.thorough else 120):
+        n = rng.randint(2, 120)
+        desc = rng.random() < 0.35
+        sc, lab = _rand_vec(rng, n, flip=not desc and rng.random() < 0.8)
+        c = {"fn": "cal", "scores": sc, "labels": lab, "thr": rng.choice(["0.05", "0.1", "0.25", "0.5", "1.0"]),
+             "half": rng.random() < 0.3, "desc": desc, "desc_kw": rng.random() < 0.5,
+             "tags": ["direct", "random", "desc=%s" % desc]}
+        if rng.random() < 0.25:
+            c["affine"] = rng.choice([[0, 2 ** 40], [0, -2 ** 44], [-40, 0], [0, -50]])
+            c["tags"].append("affine")
+        cases.append(c)
+    # containers and dtypes of both arguments: every (scores kind, targets kind) pair
+    rng = ctx.sub("cal-containers")
+    pairs = [(a, b) for a in ["f64"] + SC_KINDS for b in TG_KINDS if not (a == "f64" and b == "bool")]
+    for rep in range(16 if ctx.thorough else 4):
+        for sk, tk in pairs:
+            n = rng.randint(2, 80)
+            sc, lab = _rand_vec(rng, n)
+            c = {"fn": "cal", "scores": sc, "labels": lab, "thr": rng.choice(["0.05", "0.1", "0.25", "0.5"]),
+                 "half": sk not in ("i64", "ser_i64_perm") and rng.random() < 0.3, "sc_kind": sk, "tg_kind": tk,
+                 "idx_seed": rng.randint(0, 10 ** 6), "tags": ["direct", "container", "scores:" + sk, "targets:" + tk]}
+            if rng.random() < 0.2:
+                c["desc"] = rng.random() < 0.5
+                c["desc_kw"] = rng.random() < 0.5
+                if not c["desc"]:
+                    c["scores"] = [120 - s for s in sc]
+                c["tags"].append("desc=%s" % c["desc"])
+            cases.append(c)
+    # small exhaustive scope for the two riskiest containers (row labels that are a permutation of the positions; int labels)
+    for n in (2, 3):
+        for sc in itertools.product(range(3), repeat=n):
+            for lab in itertools.product((0, 1), repeat=n):
+                for sk, tk in (("ser_perm", "bool"), ("f64", "int"), ("i64", "ser_int_gap"), ("ser_perm", "ser_perm")):
+                    cases.append({"fn": "cal", "scores": list(sc), "labels": list(lab), "thr": "0.5", "half": False, "sc_kind": sk,
+                                  "tg_kind": tk, "idx_seed": n + sum(sc), "tags": ["direct", "container", "exhaustive", "scores:" + sk, "targets:" + tk]})
+    # the threshold argument: numpy float64, the int 1, 0.0 (nothing is ever accepted: the q-value (D+1)/T is positive)
+    rng = ctx.sub("cal-thr")
+    for k in range(90 if ctx.thorough else 30):
+        n = rng.randint(2, 60)
+        sc, lab = _rand_vec(rng, n)
+        tk = ["np64", "int1", "zero"][k % 3]
+        thr = {"np64": rng.choice(["0.1", "0.25", "0.5"]), "int1": "1", "zero": "0"}[tk]
+        cases.append({"fn": "cal", "scores": sc, "labels": lab, "thr": thr, "thr_kind": tk, "half": False,
+                      "tags": ["direct", "threshold", "thr:" + tk]})
+    # mixed signs (a small negative offset puts zero inside the score range), and long vectors
+    rng = ctx.sub("cal-sign")
+    for k in range(300 if ctx.thorough else 60):
+        n = rng.randint(2, 80)
+        sc, lab = _rand_vec(rng, n)
+        aff = rng.choice([[0, -50], [0, -7], [1, -31], [-1, -65], [0, -120], [-3, -40]])
+        cases.append({"fn": "cal", "scores": sc, "labels": lab, "thr": rng.choice(["0.05", "0.1", "0.25", "0.5"]),
+                      "half": rng.random() < 0.3, "affine": aff, "tags": ["direct", "affine", "mixed-sign", "scale=2^%d" % aff[0], "offset=%g" % aff[1]]})
+    rng = ctx.sub("cal-long")
+    for k in range(12 if ctx.thorough else 3):
+        n = rng.randint(800, 2500)
+        sc, lab = _rand_vec(rng, n)
+        sc = [s * 7 + rng.randint(0, 6) for s in sc]
+        cases.append({"fn": "cal", "scores": sc, "labels": lab, "thr": rng.choice(["0.01", "0.05"]), "half": False,
+                      "sc_kind": rng.choice(["f64", "f64", "ser_perm", "i64"]), "tg_kind": "bool", "idx_seed": k,
+                      "tags": ["direct", "random", "long"]})
+    return cases
+
+
+def _gen_ondisk(ctx):
+    """OnDiskPsmDataset.calibrate_scores(scores, eval_fdr[, desc]): the targets come from the file"""
+    cases = []
+    rng = ctx.sub("cal-ondisk")
+    for k in range(160 if ctx.thorough else 36):
+        n = rng.randint(2, 60)
+        desc = None if rng.random() < 0.7 else (rng.random() < 0.5)
+        sc, lab = _rand_vec(rng, n, flip=(desc is False))
+        enc = ["pm1", "01", "bool"][k % 3]
+        fmt = "parquet" if k % 4 == 3 else "tsv"
+        c = {"fn": "ondisk", "scores": sc, "labels": lab, "thr": rng.choice(["0.01", "0.1", "0.25", "0.5", "1.0"]), "half": rng.random() < 0.3,
+             "label_enc": enc, "fmt": fmt, "tags": ["ondisk", "labels:" + enc, fmt]}
+        if desc is not None:
+            c["desc"] = desc
+            c["desc_kw"] = rng.random() < 0.5
+            c["tags"].append("desc=%s" % desc)
+        cases.append(c)
+    return cases
+
+
+TSV_AFFINE = [[0, 2 ** 40], [0, -2 ** 44], [0, -50], [0, -7], [10, 0], [0, 10 ** 9], [3, -400]]        # integer images
+PQ_AFFINE = TSV_AFFINE + [[-1, 0], [-40, 0], [-200, 0], [60, 0], [-30, 2 ** 20], [-1, -65]]              # dyadic images
+
+
+def _brew_case(rng, nfiles, folds, n_lo, n_hi, quality=0.9, fmt=None, enc=None, thr=None):
+    nkey = rng.choice([1, 2, 2, 3, 4])
+    files = []
+    for j in range(nfiles):
+        n = rng.randint(n_lo, n_hi)
+        files.append(brewlib.gen_file(rng, n, nkey, file_idx=j, mult=(1, rng.choice([1, 2, 3])),
+                                      label_enc=enc or rng.choice(["pm1", "01", "bool"]), quality=quality))
+    nmax = max(len(f["targets"]) for f in files)
+    chunks = {}
+    if rng.random() < 0.6:
+        chunks["predict"] = max(1, rng.choice([nmax // 2 + 1, nmax // 3 + 1, nmax - 1, 7, 3]))
+    fmt = fmt or rng.choice(["tsv", "parquet"])
+    return {"fn": "brew", "files": files, "folds": folds, "seed": rng.randint(0, 10 ** 6),
+            "test_fdr": thr or rng.choice(["0.5", "0.5", "0.25", "0.25", "0.1"]), "workers": rng.choice([1, 1, 2, 4]),
+            "subset_max_train": None, "chunks": chunks, "fmt": fmt,
+            "row_group": rng.choice([None, 1, 3, 17]) if fmt == "parquet" else None, "est_mode": "decision",
+            "tags": ["brew", f"files={nfiles}", f"folds={folds}", fmt, "labels:" + (enc or "mixed"),
+                     "chunks=predict" if chunks else "chunks=default"]}
+
+
+def _gen_brew_more(ctx):
+    cases = []
+    # feature values outside 0..100: exact affine images (the model and the oracle work on the generated integers: the anchored
+    # map is invariant under a strictly increasing affine change of the raw scale); float32 / int64 decision values
+    rng = ctx.sub("cal-brew-domain")
+    for k in range(100 if ctx.thorough else 20):
+        folds = rng.choice([2, 2, 3, 3, 4, 5, 6])
+        c = _brew_case(rng, rng.choice([1, 1, 2, 3]), folds, 30 * folds, 60 * folds, quality=rng.choice([0.8, 0.9, 0.95]))
+        what = ["affine", "affine", "affine", "col32", "colint", "affine"][k % 6]
+        if what == "affine":
+            aff = rng.choice(PQ_AFFINE if c["fmt"] == "parquet" else TSV_AFFINE)
+            c["feat_affine"] = aff
+            c["tags"] += ["feat-affine", "scale=2^%d" % aff[0], "offset=%g" % aff[1]]
+        else:
+            c["est_kind"] = what
+            c["tags"].append("decision-values:" + what)
+        if k % 7 == 6 and what != "affine":       # no calibration branch: the raw decision values are returned
+            c["est_mode"] = "proba"
+        c["tags"] += ["fdr=" + c["test_fdr"], c["est_mode"]]
+        cases.append(c)
+    # a list of previously trained fold models (no training in the observed run; the list is given in rotated order)
+    rng = ctx.sub("cal-brew-pretrained")
+    for k in range(24 if ctx.thorough else 6):
+        folds = rng.choice([2, 3, 3, 4, 5])
+        c = _brew_case(rng, rng.choice([1, 1, 2]), folds, 30 * folds, 50 * folds, quality=0.9, thr=rng.choice(["0.5", "0.5", "0.25", "0.25", "0.1", "0.01"]))
+        c["mode"] = "pretrained"
+        c["rot"] = rng.randint(0, folds - 1)
+        c["seed2"] = rng.randint(0, 10 ** 6)
+        if k % 3 == 2:
+            aff = rng.choice(PQ_AFFINE if c["fmt"] == "parquet" else TSV_AFFINE)
+            c["feat_affine"] = aff
+            c["tags"] += ["feat-affine"]
+        c["tags"] += ["pretrained-model-list", "fdr=" + c["test_fdr"], "decision"]
+        cases.append(c)
+    # one previously trained model that gets worse when re-fitted: brew scores every file with the original model and calibrates
+    # per file (OnDiskPsmDataset.calibrate_scores)
+    rng = ctx.sub("cal-brew-reset")
+    for k in range(12 if ctx.thorough else 3):
+        folds = rng.choice([2, 3, 4])
+        c = _brew_case(rng, rng.choice([1, 2]), folds, 30 * folds, 50 * folds, quality=0.9, thr=rng.choice(["0.5", "0.25", "0.01"]))
+        c["mode"] = "reset"
+        c["pre_idx"] = rng.randint(0, folds - 1)
+        c["seed2"] = rng.randint(0, 10 ** 6)
+        c["tags"] += ["pretrained-model-reset", "fdr=" + c["test_fdr"], "decision"]
+        cases.append(c)
+    return cases
+
+
+# ----------------------------------------------------------------------------------------------- direct calls
 def _vals(c):
     return [Fraction(s, 2) if c.get("half") else Fraction(s) for s in c["scores"]]
 
 
-def run_case(c):
-    if c["fn"] == "brew":
-        m, i = c02.run_case(c)
-        return m, i
-    # direct
+def _impl_vals(c):
+    e, off = c.get("affine", [0, 0])
+    vals = [(Fraction(off) + v) * Fraction(2) ** e for v in _vals(c)]
+    assert all(Fraction(float(v)) == v for v in vals)
+    return vals
+
+
+def _index(kind, n, seed):
+    r = random.Random(seed * 7919 + n)
+    perm = list(range(n))
+    r.shuffle(perm)
+    if n > 1 and perm == list(range(n)):
+        perm = perm[1:] + perm[:1]
+    if kind.endswith("perm"):
+        return perm
+    if kind.endswith("gap"):
+        return [3 * p + 7 for p in perm]
+    if kind.endswith("str"):
+        return ["r%d" % p for p in perm]
+    return None
+
+
+def _mk_scores(c, vals):
+    import numpy as np
+    import pandas as pd
+    kind = c.get("sc_kind", "f64")
+    n = len(vals)
+    fl = [float(v) for v in vals]
+    if kind == "f64":
+        return np.array(fl, dtype=float)
+    if kind == "f32":
+        a = np.array(fl, dtype=np.float32)
+        assert all(Fraction(float(x)) == v for x, v in zip(a, vals))
+        return a
+    if kind == "i64":
+        return np.array([int(v) for v in vals], dtype=np.int64)
+    if kind == "strided":
+        return np.repeat(np.array(fl, dtype=float), 2)[::2]
+    if kind == "ser":
+        return pd.Series(np.array(fl, dtype=float))
+    if kind == "ser_i64_perm":
+        return pd.Series(np.array([int(v) for v in vals], dtype=np.int64), index=_index(kind, n, c.get("idx_seed", 0)))
+    return pd.Series(np.array(fl, dtype=float), index=_index(kind, n, c.get("idx_seed", 0)))
+
+
+def _mk_targets(c):
+    import numpy as np
+    import pandas as pd
+    kind = c.get("tg_kind", "bool")
+    lab = c["labels"]
+    n = len(lab)
+    if kind == "bool":
+        return np.array([bool(v) for v in lab])
+    if kind == "int":
+        return np.array([int(v) for v in lab], dtype=np.int64)
+    if kind == "float":
+        return np.array([float(v) for v in lab], dtype=float)
+    if kind == "ser":
+        return pd.Series(np.array([bool(v) for v in lab]))
+    if kind == "ser_perm":         # other row labels than the scores
+        return pd.Series(np.array([bool(v) for v in lab]), index=_index(kind, n, c.get("idx_seed", 0) + 1))
+    if kind == "ser_int_gap":
+        return pd.Series(np.array([int(v) for v in lab], dtype=np.int64), index=_index(kind, n, c.get("idx_seed", 0) + 2))
+    raise ValueError(kind)
+
+
+def _thr_arg(c):
+    import numpy as np
+    k = c.get("thr_kind", "float")
+    if k == "np64":
+        return np.float64(c["thr"])
+    if k in ("int1", "zero"):
+        return int(c["thr"]) if k == "int1" else 0.0
+    return float(c["thr"])
+
+
+def _desc_args(c):
+    """positional / keyword arguments after eval_fdr"""
+    if "desc" not in c:
+        return (), {}
+    return ((), {"desc": bool(c["desc"])}) if c.get("desc_kw") else ((bool(c["desc"]),), {})
+
+
+def _model_line(c):
     sc = c["scores"]              # model gets the integers (half-integers scaled by 2: order-preserving, exact)
-    line = "c11.calibrate %s %s %s" % (lib.lst(sc), lib.lst(c["labels"], lib.b), lib.q(Fraction(c["thr"])))
+    if "desc" in c:
+        return "c11.calibrate_d %s %s %s %s" % (lib.b(bool(c["desc"])), lib.lst(sc), lib.lst(c["labels"], lib.b), lib.q(Fraction(c["thr"])))
+    return "c11.calibrate %s %s %s" % (lib.lst(sc), lib.lst(c["labels"], lib.b), lib.q(Fraction(c["thr"])))
+
+
+def _model_direct(c):
+    if _DIRECT_BY_ID.get(id(c)) is c:
+        if not _MODEL_CACHE:          # one driver process for all direct cases of the run
+            xs = list(_DIRECT_BY_ID.values())
+            for x, o in zip(xs, lib.run_driver([_model_line(x) for x in xs])):
+                _MODEL_CACHE[id(x)] = o
+        line = _MODEL_CACHE[id(c)]
+    else:                             # replay / shrinking
+        line = lib.run_driver([_model_line(c)])[0]
+    t = Toks(line)
+    m = t.result(lambda: t.lst(t.q))
+    if m[0] == "err" and m[1] == "TypeError":
+        m = ("err", "NonFinite")
+    return m
+
+
+_CASE_OF = {}
+
+
+def _round_model(c, m, f32=False):
+    import numpy as np
+    if m[0] != "ok":
+        return m
+    # the affine map is invariant under the common scaling by 2
+    if f32:
+        return ("ok", [Fraction(float(np.float32(float(q)))) for q in m[1]])
+    return ("ok", [Fraction(float(q)) for q in m[1]])
+
+
+def _finish(out, n):
+    import numpy as np
+    arr = np.asarray(out)
+    if arr.shape != (n,):
+        raise AssertionError("result of shape %r for %d scores" % (arr.shape, n))
+    if not np.all(np.isfinite(arr.astype(float))):
+        raise FloatingPointError("nonfinite")
+    return [Fraction(float(v)) for v in arr]
+
+
+def _run_direct(c):
+    m = _model_direct(c)
+
+    def impl():
+        from mokapot.dataset import calibrate_scores
+        vals = _impl_vals(c)
+        arr = _mk_scores(c, vals)
+        a, k = _desc_args(c)
+        out = calibrate_scores(arr, _mk_targets(c), _thr_arg(c), *a, **k)
+        return _finish(out, len(vals))
+    i = call_impl(impl)
+    if i[0] == "err" and i[1] == "FloatingPointError":
+        i = ("err", "NonFinite")
+    return _round_model(c, m, f32=c.get("sc_kind") == "f32"), i
+
+
+def _pin_file(c):
+    """a minimal PIN table whose Label column carries c['labels'] in the chosen encoding"""
+    n = len(c["labels"])
+    enc = c.get("label_enc", "pm1")
+    tg = [bool(v) for v in c["labels"]]
+    lab = [1 if t else -1 for t in tg] if enc == "pm1" else ([1 if t else 0 for t in tg] if enc == "01" else tg)
+    cols = {"SpecId": ["psm%d" % i for i in range(n)], "Label": lab, "ScanNr": [i + 1 for i in range(n)],
+            "ExpMass": [500 + 0.25 * (i % 7) for i in range(n)], "rid": list(range(n)), "feat0": [int(s) for s in c["scores"]],
+            "Peptide": ["K.PEP%dK.A" % (i % 5) for i in range(n)], "Proteins": ["prot%d" % (i % 3) for i in range(n)]}
+    return {"columns": list(cols), "data": cols, "targets": tg}
+
+
+def _run_ondisk(c):
+    line = "c11.calibrate_d %s %s %s %s" % (lib.b(bool(c.get("desc", True))), lib.lst(c["scores"]), lib.lst(c["labels"], lib.b),
+                                            lib.q(Fraction(c["thr"])))
     t = Toks(lib.run_driver([line])[0])
     m = t.result(lambda: t.lst(t.q))
     if m[0] == "err" and m[1] == "TypeError":
@@ -89,47 +461,252 @@ def run_case(c):
 
     def impl():
         import numpy as np
-        from mokapot.dataset import calibrate_scores
-        e, off = c.get("affine", [0, 0])
-        vals = [(Fraction(off) + v) * Fraction(2) ** e for v in _vals(c)]
-        assert all(Fraction(float(v)) == v for v in vals)
-        arr = np.array([float(v) for v in vals], dtype=float)
-        out = calibrate_scores(arr, np.array([bool(v) for v in c["labels"]]), float(c["thr"]))
-        if not np.all(np.isfinite(out)):
-            raise FloatingPointError("nonfinite")
-        return [Fraction(float(v)) for v in out]
+        import mokapot
+        d = tempfile.mkdtemp(prefix="cal11_", dir=os.environ.get("VERIF_TMP", "/tmp"))
+        try:
+            p = brewlib.write_file(_pin_file(c), d, "file0", c.get("fmt", "tsv"), None)
+            ds = mokapot.read_pin([p], max_workers=1)[0]
+            vals = _impl_vals(c)
+            a, k = _desc_args(c)
+            out = ds.calibrate_scores(np.array([float(v) for v in vals], dtype=float), float(c["thr"]), *a, **k)
+            return _finish(out, len(vals))
+        finally:
+            shutil.rmtree(d, ignore_errors=True)
     i = call_impl(impl)
     if i[0] == "err" and i[1] == "FloatingPointError":
         i = ("err", "NonFinite")
-    if m[0] == "ok":
-        # the affine map is invariant under the common scaling by 2
-        m = ("ok", [Fraction(float(q)) for q in m[1]])
+    return _round_model(c, m), i
+
+
+# ----------------------------------------------------------------------------------------------- brew runs
+def _impl_files(c):
+    """the tables handed to the real code: feature columns mapped through the exact affine image, if any"""
+    aff = c.get("feat_affine")
+    if not aff:
+        return c["files"]
+    e, off = aff
+    out = []
+    for f in c["files"]:
+        data = dict(f["data"])
+        for name in f["columns"]:
+            if name.startswith("feat"):
+                vals = [(Fraction(off) + int(v)) * Fraction(2) ** e for v in f["data"][name]]
+                assert all(Fraction(float(v)) == v for v in vals)
+                if all(v.denominator == 1 and abs(v) < 2 ** 53 for v in vals):
+                    data[name] = [int(v) for v in vals]          # written as integers: exact in a tsv file
+                else:
+                    data[name] = [float(v) for v in vals]        # Parquet only (binary doubles)
+        out.append({"columns": f["columns"], "data": data, "targets": f["targets"]})
+    if c.get("fmt", "tsv") != "parquet":
+        assert all(isinstance(v, int) for f in out for name in f["columns"] if name.startswith("feat") for v in f["data"][name])
+    return out
+
+
+def _refit_class():
+    """an estimator that ranks by one feature column when first fitted and, when fitted AGAIN (as brew does with a
+    previously trained model), ranks every training target below every training decoy — the re-fit is always worse"""
+    if hasattr(_refit_class, "cls"):
+        return _refit_class.cls
+    from sklearn.base import BaseEstimator, ClassifierMixin
+    import numpy as np
+
+    class Refit(BaseEstimator, ClassifierMixin):
+        def fit(self, X, y):
+            self.nfit_ = getattr(self, "nfit_", 0) + 1
+            ids = [int(v) for v in X[:, 0]]
+            if self.nfit_ == 1:
+                self.col_ = 1 + (sum(ids) % (X.shape[1] - 1))
+                self.mem_ = {}
+            else:
+                self.mem_ = {i: int(l) for i, l in zip(ids, y)}
+            self.classes_ = np.array([0, 1])
+            return self
+
+        def decision_function(self, X):
+            out = np.asarray(X[:, self.col_], dtype=float).copy()
+            for j in range(X.shape[0]):
+                lbl = self.mem_.get(int(X[j, 0]))
+                if lbl is not None:
+                    out[j] = -1000.0 if lbl == 1 else 1000.0
+            return out
+    _refit_class.cls = Refit
+    return Refit
+
+
+def _two_brews(c):
+    """brew once to obtain trained fold models, then the observed run on fresh dataset objects with (a) the list of those
+    models or (b) one of them as a single previously trained model whose re-fit is worse"""
+    import numpy as np
+    import mokapot
+    from mokapot.model import Model
+    RecScaler, Transparent = brewlib.make_classes()
+    mode = c["mode"]
+    k = c["folds"]
+    d = tempfile.mkdtemp(prefix="brew11_", dir=os.environ.get("VERIF_TMP", "/tmp"))
+    try:
+        paths = [brewlib.write_file(f, d, "file%d" % i, c.get("fmt", "tsv"), c.get("row_group")) for i, f in enumerate(_impl_files(c))]
+        with brewlib.Chunking(**c.get("chunks", {})):
+            dss = mokapot.read_pin(paths, max_workers=1)
+            brewlib.reset_log()
+            est = Transparent(mode="decision", learn=True) if mode == "pretrained" else _refit_class()()
+            model = Model(est, scaler=RecScaler(), train_fdr=1.0, max_iter=1, override=True, rng=c["seed"])
+            try:
+                _, models1, _, _ = mokapot.brew(dss, model, test_fdr=1.0, folds=k, max_workers=1, rng=c["seed"])
+            except BaseException as e:   # noqa
+                if isinstance(e, (KeyboardInterrupt, SystemExit, MemoryError)):
+                    raise
+                return {"first_brew_failed": lib.err_kind(e)}
+            fit_by_token = dict(brewlib.LOG["fit"])
+            est_fits = [(sorted(x[0]), x[2]) for x in brewlib.LOG["est_fit"] if len(x) > 2]
+            train_ids = [sorted(fit_by_token.get(getattr(m.scaler, "token_", None), [])) for m in models1]
+            dss = mokapot.read_pin(paths, max_workers=1)
+            keys = [brewlib.spectrum_keys(ds) for ds in dss]
+            brewlib.reset_log()
+            if mode == "pretrained":
+                given = list(models1)[c["rot"]:] + list(models1)[:c["rot"]]
+            else:
+                given = models1[c["pre_idx"] % k]
+                given.scaler.token_ = -1
+                given.train_fdr = 0.3
+                pre_col = int(given.estimator.col_)
+            try:
+                _, models, scores, descs = mokapot.brew(dss, given, test_fdr=float(c["test_fdr"]), folds=k,
+                                                        max_workers=c.get("workers", 1), rng=c["seed2"])
+            except BaseException as e:   # noqa
+                if isinstance(e, (KeyboardInterrupt, SystemExit, MemoryError)):
+                    raise
+                obs = {"keys": keys, "error": lib.err_kind(e), "message": str(e)[:200], "est_fits": est_fits}
+                if mode == "reset":
+                    obs["pre_col"] = pre_col
+                    obs["reset_scored"] = sorted(g for tok, ids in brewlib.LOG["transform"] if tok == -1 for g in ids)
+                return obs
+        tr = {}
+        for tok, ids in brewlib.LOG["transform"]:
+            tr.setdefault(tok, []).extend(ids)
+        obs = {"keys": keys, "error": None,
+               "model_folds": [m.fold for m in models], "trained": [bool(m.is_trained) for m in models],
+               "cols": [getattr(m.estimator, "col_", None) for m in models],
+               "train_ids": train_ids,
+               "scored_ids": [sorted(tr.get(getattr(m.scaler, "token_", None), [])) for m in models],
+               "scores": [[Fraction(float(v)) if np.isfinite(v) else None for v in np.asarray(s).ravel()] for s in scores],
+               "descs": [bool(x) for x in descs], "seen": [{} for m in models]}
+        if mode == "reset":
+            obs["pre_col"] = pre_col
+            obs["reset_scored"] = sorted(tr.get(-1, []))
+        return obs
+    finally:
+        shutil.rmtree(d, ignore_errors=True)
+
+
+def _compare_reset(c, got):
+    """expected: every file is scored by the ORIGINAL model (its column) and calibrated as a whole at test_fdr"""
+    if got[0] == "err":
+        return ("unknown", "harness"), ("err", got[1])
+    obs = got[1]
+    if not obs.get("reset_scored"):
+        # the original model never scored anything: the re-fit did not fail in the way that makes brew fall back to it
+        # (e.g. no PSM accepted by the given model at its train_fdr) — not the branch this case is about
+        return ("err", "NoReset"), ("err", "NoReset")
+    name = "rid" if obs["pre_col"] == 0 else "feat%d" % (obs["pre_col"] - 1)
+    lines = ["c11.calibrate %s %s %s" % (lib.lst([int(v) for v in f["data"][name]]), lib.lst(f["targets"], lib.b),
+                                          lib.q(Fraction(c["test_fdr"]))) for f in c["files"]]
+    res = []
+    for line in lib.run_driver(lines):
+        t = Toks(line)
+        res.append(t.result(lambda: t.lst(t.q)))
+    allrows = sorted(c02._gid(j, r) for j, f in enumerate(c["files"]) for r in range(len(f["targets"])))
+    if any(r[0] == "err" for r in res):
+        kind = [r[1] for r in res if r[0] == "err"][0]
+        m = ("err", "NonFinite" if kind == "TypeError" else kind)
+    else:
+        m = ("ok", {"scores": [[Fraction(float(q)) for q in r[1]] for r in res], "reset_scored": allrows})
+    if obs.get("error"):
+        return m, ("err", obs["error"])
+    if any(v is None for s in obs["scores"] for v in s):
+        return m, ("err", "NonFinite")
+    return m, ("ok", {"scores": obs["scores"], "reset_scored": obs["reset_scored"], "_obs": {"pre_col": obs["pre_col"]}})
+
+
+def _run_brew(c):
+    mode = c.get("mode")
+    if mode in ("pretrained", "reset"):
+        got = call_impl(_two_brews, c)
+        if got[0] == "ok" and "first_brew_failed" in got[1]:
+            return ("err", "FirstBrewFailed"), ("err", "FirstBrewFailed")
+        if mode == "reset":
+            return _compare_reset(c, got)
+        m, i = c02.compare(c, got)
+    elif c.get("feat_affine"):
+        m, i = c02.compare(c, call_impl(brewlib.run_brew, dict(c, files=_impl_files(c))))
+    else:
+        m, i = c02.run_case(c)
+    if c.get("est_kind") == "col32" and c.get("est_mode") == "decision" and m[0] == "ok" and isinstance(m[1].get("scores"), list):
+        import numpy as np
+        m = ("ok", dict(m[1], scores=[[Fraction(float(np.float32(float(q)))) for q in s] for s in m[1]["scores"]]))
     return m, i
+
+
+def run_case(c):
+    _CASE_OF[id(c)] = c
+    if c["fn"] == "brew":
+        m, i = _run_brew(c)
+        _NT[id(c)] = _brew_nontrivial(c, m, i)
+        return m, i
+    if c["fn"] == "ondisk":
+        return _run_ondisk(c)
+    return _run_direct(c)
 
 
 def same(c, m, i):
     if c["fn"] == "brew":
+        if c.get("mode") == "reset":
+            if m[0] != i[0]:
+                return False
+            return m[1] == i[1] if m[0] != "ok" else all(m[1][k] == i[1][k] for k in ("scores", "reset_scored"))
         return c02.same(c, m, i)
     return tuple(m) == tuple(i) if m[0] == "err" or i[0] == "err" else list(m[1]) == list(i[1])
 
 
+def finding_key(c, m, i):
+    # OnDiskPsmDataset.calibrate_scores asks its reader for columns=<str>; the reader's type check rejects it
+    if i is not None and i[0] == "err" and i[1] == "TypeCheckError":
+        if c["fn"] == "ondisk" or (c["fn"] == "brew" and c.get("mode") == "reset"):
+            return KEY_ONDISK
+    return None
+
+
+def _brew_nontrivial(c, m, i):
+    if i[0] == "err":
+        return i[1] == "RuntimeError" and tuple(m) == ("err", "RuntimeError")
+    if i[0] != "ok" or c.get("est_mode", "decision") != "decision" or not isinstance(i[1].get("scores"), list):
+        return False
+    stats = {"groups": 0, "compared": 0}
+    try:
+        msg = _oracle_brew(c, i, stats)
+    except Exception:
+        return False
+    return msg is None and stats["groups"] > 0 and stats["compared"] == stats["groups"]
+
+
 def nontrivial(c):
     if c["fn"] == "brew":
-        return True
+        return bool(_NT.get(id(c), False)) if _CASE_OF.get(id(c)) is c else False
     lab, sc = c["labels"], c["scores"]
     return 0 < sum(lab) < len(lab) and (len(set(sc)) < len(sc) or any(
         (not lab[a]) and lab[b] and sc[a] > sc[b] for a in range(len(sc)) for b in range(len(sc))))
 
 
-def _qvals(scores, targets):
+def _qvals(scores, targets, desc=True):
     from .c01 import q_spec
     from .c01 import exact_ints
-    return q_spec(exact_ints([float(s) for s in scores]), targets, True)
+    return q_spec(exact_ints([float(s) for s in scores]), targets, desc)
 
 
-def _check_fold(raw, targets, out, thr):
+def _check_fold(raw, targets, out, thr, desc=True, f32=False, stats=None):
     """property: out is a strictly increasing affine image of raw with anchors 0 / -1"""
-    qs = _qvals(raw, targets)
+    if stats is not None:
+        stats["groups"] += 1
+    qs = _qvals(raw, targets, desc)
     acc = [r for r, t, q in zip(raw, targets, qs) if t and q <= thr]
     dec = sorted(r for r, t in zip(raw, targets) if not t)
     if not acc:
@@ -141,36 +718,31 @@ def _check_fold(raw, targets, out, thr):
     d0 = dec[n // 2] if n % 2 else (dec[n // 2 - 1] + dec[n // 2]) / 2
     if not d0 < t0:
         return None     # outside the property's quantifier
+    if stats is not None:
+        stats["compared"] += 1
     for r, o in zip(raw, out):
         exp = Fraction(float((r - t0) / (t0 - d0)))
+        if f32:
+            import numpy as np
+            exp = Fraction(float(np.float32(float(exp))))
         if o != exp:
             return f"raw {r} -> {float(o)} but the anchored affine map gives {float(exp)} (t={t0}, d={d0})"
     return None
 
 
-def oracle(c, i):
-    if c["fn"] == "cal":
-        raw = _vals(c)
-        tg = [bool(v) for v in c["labels"]]
-        thr = Fraction(c["thr"])
-        qs = _qvals(raw, tg)
-        acc = [r for r, t, q in zip(raw, tg, qs) if t and q <= thr]
-        if i[0] == "err":
-            if i[1] == "RuntimeError" and not acc:
-                return None
-            if i[1] == "NonFinite":
-                return None
-            if not acc:
-                return f"no accepted target: expected RuntimeError, got {i[1]}"
-            return f"calibration failed with {i[1]} although a target is accepted"
-        return _check_fold(raw, tg, i[1], thr)
-    # brew
-    if i[0] != "ok" or "scored" not in i[1] or not isinstance(i[1].get("scores"), list):
-        return None
-    if c.get("est_mode") != "decision":
-        return None
+def _oracle_brew(c, i, stats=None):
     o = i[1]
     thr = Fraction(c["test_fdr"])
+    f32 = c.get("est_kind") == "col32"
+    if c.get("mode") == "reset":
+        # the original model scores every file as a whole
+        col = o["_obs"]["pre_col"]
+        name = "rid" if col == 0 else "feat%d" % (col - 1)
+        for j, fl in enumerate(c["files"]):
+            msg = _check_fold([Fraction(v) for v in fl["data"][name]], fl["targets"], o["scores"][j], thr, stats=stats)
+            if msg:
+                return f"file {j} (scored by the given model): {msg}"
+        return None
     cols = o["_obs"]["cols"]
     for f, rows in enumerate(o["scored"]):
         for j, fl in enumerate(c["files"]):
@@ -181,7 +753,39 @@ def oracle(c, i):
             raw = [Fraction(fl["data"][name][r]) for r in mine]
             tg = [fl["targets"][r] for r in mine]
             out = [o["scores"][j][r] for r in mine]
-            msg = _check_fold(raw, tg, out, thr)
+            msg = _check_fold(raw, tg, out, thr, f32=f32, stats=stats)
             if msg:
                 return f"fold {f} of file {j}: {msg}"
     return None
+
+
+def oracle(c, i):
+    if c["fn"] in ("cal", "ondisk"):
+        raw = _vals(c)
+        tg = [bool(v) for v in c["labels"]]
+        thr = Fraction(c["thr"])
+        desc = bool(c.get("desc", True))
+        qs = _qvals(raw, tg, desc)
+        acc = [r for r, t, q in zip(raw, tg, qs) if t and q <= thr]
+        if i[0] == "err":
+            if i[1] == "RuntimeError" and not acc:
+                return None
+            if i[1] == "NonFinite":
+                return None
+            if not acc:
+                return f"no accepted target: expected RuntimeError, got {i[1]}"
+            return f"calibration failed with {i[1]} although a target is accepted"
+        return _check_fold(raw, tg, i[1], thr, desc, f32=c.get("sc_kind") == "f32")
+    # brew
+    if c.get("mode") == "reset" and i[0] == "err" and i[1] not in ("RuntimeError", "NonFinite", "FirstBrewFailed"):
+        return f"brew with a previously trained model whose re-fit is worse failed with {i[1]} instead of returning calibrated scores"
+    if i[0] == "err" and i[1] not in ("RuntimeError", "NonFinite", "OneClassTrainingSet", "EmptyFold", "FirstBrewFailed", "NoReset"):
+        # RuntimeError is the explicit calibration error (whether it is justified is decided by the comparison with the model)
+        return f"brew stopped with {i[1]} instead of returning scores or the explicit calibration error"
+    if i[0] != "ok" or not isinstance(i[1].get("scores"), list):
+        return None
+    if c.get("mode") != "reset" and "scored" not in i[1]:
+        return None
+    if c.get("est_mode", "decision") != "decision":
+        return None
+    return _oracle_brew(c, i)
